@@ -6,7 +6,8 @@
 
 use crate::node::{fresh_dir, StatusKind};
 use grin_chain::BlockStatus;
-use grin_servers::common::adapters::{ChainToPoolAndNetAdapter, PoolToChainAdapter};
+use grin_p2p::ChainAdapter as NetChainAdapter;
+use grin_servers::common::adapters::{ChainToPoolAndNetAdapter, NetToChainAdapter, PoolToChainAdapter};
 use grin_servers::common::hooks::ChainEvents;
 use grin_util::RwLock;
 use std::sync::Mutex;
@@ -70,7 +71,25 @@ impl ChainEvents for EventRec {
 pub type RealPool = TransactionPool<PoolToChainAdapter, SimRelay>;
 
 /// Chain + pool + peers assembled like `servers::Server::new` does.
+pub type RealNet = NetToChainAdapter<PoolToChainAdapter, SimRelay>;
+
+/// What a peer connection is to the adapters: an address nobody is connected from.
+pub fn sim_peer_info() -> grin_p2p::PeerInfo {
+	grin_p2p::PeerInfo {
+		capabilities: grin_p2p::Capabilities::default(),
+		user_agent: "sim".into(),
+		version: grin_core::ser::ProtocolVersion::local(),
+		addr: grin_p2p::PeerAddr("10.9.9.9:13414".parse().unwrap()),
+		direction: grin_p2p::types::Direction::Inbound,
+		live_info: Arc::new(RwLock::new(grin_p2p::types::PeerLiveInfo::new(grin_core::pow::Difficulty::min_dma()))),
+	}
+}
+
 pub fn assemble_node(dir: &std::path::Path, genesis: Block, relay: Arc<SimRelay>, cfg: PoolConfig) -> Result<(Arc<Chain>, Arc<RwLock<RealPool>>, Arc<grin_p2p::Peers>, Arc<Mutex<Vec<(Hash, StatusKind)>>>), String> {
+	assemble_node_net(dir, genesis, relay, cfg).map(|(c, p, pe, ev, _)| (c, p, pe, ev))
+}
+
+pub fn assemble_node_net(dir: &std::path::Path, genesis: Block, relay: Arc<SimRelay>, cfg: PoolConfig) -> Result<(Arc<Chain>, Arc<RwLock<RealPool>>, Arc<grin_p2p::Peers>, Arc<Mutex<Vec<(Hash, StatusKind)>>>, Arc<RealNet>), String> {
 	let p2c = Arc::new(PoolToChainAdapter::new());
 	let pool = Arc::new(RwLock::new(TransactionPool::new(cfg, p2c.clone(), relay)));
 	let events = Arc::new(Mutex::new(vec![]));
@@ -81,7 +100,10 @@ pub fn assemble_node(dir: &std::path::Path, genesis: Block, relay: Arc<SimRelay>
 	let store = grin_p2p::store::PeerStore::new(dir.join("peers").to_str().unwrap()).map_err(|e| format!("peer store: {:?}", e))?;
 	let peers = Arc::new(grin_p2p::Peers::new(store, Arc::new(grin_p2p::DummyAdapter {}), grin_p2p::P2PConfig::default()));
 	c2p.init(peers.clone());
-	Ok((chain, pool, peers, events))
+	let sync = Arc::new(grin_chain::SyncState::new());
+	let net = Arc::new(NetToChainAdapter::new(sync, chain.clone(), pool.clone(), grin_servers::ServerConfig::default(), vec![]));
+	net.init(peers.clone());
+	Ok((chain, pool, peers, events, net))
 }
 
 #[derive(Clone)]
@@ -198,6 +220,8 @@ pub struct PoolSim<'w> {
 	events: Arc<Mutex<Vec<(Hash, StatusKind)>>>,
 	pool: Arc<RwLock<RealPool>>,
 	_peers: Arc<grin_p2p::Peers>,
+	net: Arc<RealNet>,
+	peer_info: grin_p2p::PeerInfo,
 	relay: Arc<SimRelay>,
 	dir: std::path::PathBuf,
 	/// world block id of the node's head
@@ -230,7 +254,7 @@ impl<'w> PoolSim<'w> {
 			fail_next_stem: std::sync::atomic::AtomicBool::new(false),
 			stem_relay_failed: std::sync::atomic::AtomicU64::new(0),
 		});
-		let (chain, pool, peers, events) = assemble_node(
+		let (chain, pool, peers, events, net) = assemble_node_net(
 			&dir,
 			world.genesis.clone(),
 			relay.clone(),
@@ -255,6 +279,8 @@ impl<'w> PoolSim<'w> {
 			events,
 			pool,
 			_peers: peers,
+			net,
+			peer_info: sim_peer_info(),
 			relay,
 			dir,
 			head: start,
@@ -391,11 +417,41 @@ impl<'w> PoolSim<'w> {
 				return Ok(());
 			}
 		};
-		match self.chain.process_block(b, self.world.opts) {
-			Ok(_) => {}
-			Err(e) => {
-				return Err(viol("block-refused-by-node", format!("step {}: node refused block #{} ({}) the builder accepted: {:?}", self.step, id, what, e)));
+		// the block reaches the node the way a peer's messages do: through the real NetToChainAdapter,
+		// as a full block, as a compact block (hydrated from the pool; the full block follows when the
+		// adapter would have asked for it), header first, or - one in four - straight into the chain
+		let bh = b.hash();
+		let mode = fnv64(bh.as_bytes()) % 4;
+		let how = match mode {
+			0 => {
+				let _ = self.net.block_received(b.clone(), &self.peer_info, self.world.opts);
+				"full block via adapter"
 			}
+			1 | 2 => {
+				if mode == 2 {
+					let _ = self.net.header_received(b.header.clone(), &self.peer_info);
+					self.probe("block_delivered_header_first");
+				}
+				let cb = crate::wiresim::det_compact_block(&b, fnv64(bh.as_bytes()).rotate_left(17), grin_core::ser::ProtocolVersion::local());
+				let _ = self.net.compact_block_received(cb, &self.peer_info);
+				if self.chain.block_exists(bh).unwrap_or(false) {
+					self.probe("compact_block_hydrated_from_pool");
+					"compact block hydrated"
+				} else {
+					// what the peer answers to the adapter's request for the full block
+					self.probe("compact_block_fell_back_to_full_block");
+					let _ = self.net.block_received(b.clone(), &self.peer_info, self.world.opts);
+					"compact block, then full block"
+				}
+			}
+			_ => {
+				let _ = self.chain.process_block(b.clone(), self.world.opts);
+				"process_block"
+			}
+		};
+		if !self.chain.block_exists(bh).unwrap_or(false) {
+			let again = self.chain.process_block(b, self.world.opts);
+			return Err(viol("block-refused-by-node", format!("step {}: node did not accept block #{} ({}) the builder accepted, delivered as {}; process_block now says {:?}", self.step, id, what, how, again.map(|t| t.map(|x| x.height)))));
 		}
 		self.absorb_block_events();
 		Ok(())
